@@ -48,7 +48,7 @@ Proof.
   destruct (str_eqb_spec name str_String) as [E4|E4];
   destruct (str_eqb_spec name str_ID) as [E5|E5];
   unfold str_Boolean, str_Int, str_Float, str_String, str_ID in *;
-  try congruence; destruct v; cbn in *; congruence.
+  try congruence; destruct v; cbn in *; rewrite <- ?parse_i32_spec in *; congruence.
 Qed.
 
 Lemma scalar_accepts_null name p : scalar_accepts name (VNull p) = true.
